@@ -7,6 +7,7 @@ use std::cell::Cell;
 
 thread_local! {
     static CONTAINS_ANCHOR: Cell<Option<usize>> = const { Cell::new(None) };
+    static HOOK_INSTALL_PAUSES: Cell<(u64, u64)> = const { Cell::new((0, 0)) };
 }
 
 /// Overrides, for the current thread, the anchor position that the SIMD
@@ -31,4 +32,20 @@ pub fn simd_contains_active() -> bool {
 /// Returns the current nesting level of `catch_panic` on this thread.
 pub fn panic_catcher_level() -> u64 {
     crate::panic::verif_panic_catcher_level()
+}
+
+/// Makes the current thread sleep inside `panic_catcher_set_hook`: for
+/// `before_us` microseconds right before it replaces the process-wide panic
+/// hook and for `during_us` microseconds while it is replacing it. Lets a
+/// harness choose how concurrent installations interleave.
+pub fn set_hook_install_pauses(before_us: u64, during_us: u64) {
+    HOOK_INSTALL_PAUSES.with(|c| c.set((before_us, during_us)));
+}
+
+pub(crate) fn hook_install_pause(during: bool) {
+    let (before_us, during_us) = HOOK_INSTALL_PAUSES.with(|c| c.get());
+    let us = if during { during_us } else { before_us };
+    if us > 0 {
+        std::thread::sleep(std::time::Duration::from_micros(us));
+    }
 }
